@@ -8,7 +8,33 @@ NOTE = ("Trusted base: Lean 4.33 kernel; axioms propext / Classical.choice / Quo
         "input), glam, libm and f32 arithmetic are modelled (exact rationals on exact grids), not verified.")
 
 # id -> (technique, level text, design ref)
+CORR = (" The model is tied to the real crate on every run by executing both (the crate inside a real Bevy App through its public API, "
+        "the model through its compiled Lean definitions) on the committed corpus, directed/exhaustive enumerators and seeded random "
+        "scenarios of this property's stream and comparing the traces byte for byte on the fields the property determines.")
+
 CLAIMED = {
+    "C01": ("Lean 4 theorems (extracted transition table checked against the documented one by decide; unfolding of the per-action update; "
+            "induction over the action loop) + checked correspondence",
+            "For every action configuration, reader, tick and entity list the model's update stores the table entry for (polled previous state, "
+            "new state), delivers exactly those events with the polled payload to every entity, Started first, in the action's dimension; the "
+            "transition table and flag order are re-extracted from the source on every run." + CORR, "§5 C01"),
+    "C03": ("Lean 4 theorems (fold invariant over arbitrary condition machines, by induction on the condition list; combine/overwrite as list "
+            "concatenation/replacement) + checked correspondence incl. exhaustive (kind x result) sequences",
+            "The explicit/implicit/blocker law is proved for every list of arbitrary conditions at input level, at action level and for both "
+            "levels combined through the merge loop." + CORR, "§5 C03"),
+    "C04": ("Lean 4 theorems (loop invariant of the input merge by induction over the binding list; linearity of truncation) + checked correspondence",
+            "Contributing inputs, merged value (sum / per-axis max-abs), modifier order, output dimension and absence of panics are proved for "
+            "all configurations and inputs over exact rationals." + CORR, "§5 C04"),
+    "C05": ("Lean 4 theorems (case analysis over input kinds; monotonicity of the consumed set; characterisation of what one update consumes) "
+            "+ checked correspondence",
+            "Consumption hides exactly the inputs sharing a source or a modifier key with a contributing input, only when the consuming action is "
+            "not None, persists for the rest of the frame and is reset by the next one - proved for all readers and inputs." + CORR, "§5 C05"),
+    "C10": ("Lean 4 theorems (per-step equations; induction over arbitrary state/delta histories) + checked correspondence",
+            "Elapsed/fired durations are characterised for every state history and every sequence of non-negative deltas; payload = polled." + CORR, "§5 C10"),
+    "C12": ("Lean 4 theorems (log of the evaluation equals the canonical invocation list, for arbitrary machines; independence from consumption) "
+            "+ checked correspondence on instrumented conditions/modifiers",
+            "Each modifier/condition past the held-input suppression is invoked exactly once per frame in the canonical order, with no "
+            "hypothesis on results, blockers, consumption or state; proved for actions and whole context instances." + CORR, "§5 C12"),
     "C20": ("Lean 4 theorems about the value model (case analysis over all values/dimensions) + checked correspondence on direct ActionValue API calls",
             "All conversion laws are proved in Lean for every value and dimension over exact rationals; the model is tied to the real "
             "ActionValue API by running both on an exhaustive grid and random dyadic values and comparing byte for byte.", "§5 C20"),
